@@ -332,6 +332,14 @@ THR3 = [0.0, 0.5, 1.0]
 THR5 = [0.0, 0.25, 0.5, 0.75, 1.0]
 
 
+def _f_retrieval(fn):
+    def call(cfg, b: Batch):
+        if cfg.get("num_queries", 1) != 1:
+            raise NotImplementedError
+        return fn(b.args[0], b.args[1], k=cfg.get("k"), limit_k_to_size=cfg.get("limit_k_to_size", False)).reshape(-1)
+    return call
+
+
 def _specs() -> list[Spec]:
     S = []
     binthr = [{}, {"threshold": 0.25}, {"threshold": 0.75}, {"threshold": 1.0}]
@@ -411,9 +419,9 @@ def _specs() -> list[Spec]:
         Spec("HitRate", M.HitRate, [{}, {"k": 1}, {"k": 2}, {"k": 9}], g_rank, kind="ordered", cat=c01, functional=_f(F.hit_rate, "k"), family="rank", per_sample=True),
         Spec("ReciprocalRank", M.ReciprocalRank, [{}, {"k": 1}, {"k": 2}, {"k": 9}], g_rank, kind="ordered", cat=c01, functional=_f(F.reciprocal_rank, "k"), family="rank", per_sample=True),
         Spec("RetrievalPrecision", M.RetrievalPrecision, [{"k": 2}, {"k": 3, "limit_k_to_size": True}, {"k": 2, "num_queries": 2, "avg": "macro"}, {"k": None}, {"k": 2, "num_queries": 2, "empty_target_action": "pos"}],
-             g_retrieval, kind="retrieval", cat=c012, family="rank", sizes=(1, 2, 3, 5)),
+             g_retrieval, kind="retrieval", cat=c012, family="rank", sizes=(1, 2, 3, 5), functional=_f_retrieval(F.retrieval_precision)),
         Spec("RetrievalRecall", M.RetrievalRecall, [{"k": 2}, {"k": 3, "limit_k_to_size": True}, {"k": 2, "num_queries": 2, "avg": "macro"}, {"k": None}],
-             g_retrieval, kind="retrieval", cat=c012, family="rank", sizes=(1, 2, 3, 5)),
+             g_retrieval, kind="retrieval", cat=c012, family="rank", sizes=(1, 2, 3, 5), functional=_f_retrieval(F.retrieval_recall)),
         Spec("ClickThroughRate", M.ClickThroughRate, [{}, {"num_tasks": 2}], g_ctr, cat={0: -1, 1: -1}, functional=_f(F.click_through_rate, "num_tasks"), model=None, family="rank", count_states=("click_total", "weight_total")),
         Spec("WeightedCalibration", M.WeightedCalibration, [{}, {"num_tasks": 2}], g_wc, cat={0: -1, 1: -1, 2: -1}, functional=_f(F.weighted_calibration, "num_tasks"), model=None, family="rank"),
     ]
@@ -468,3 +476,69 @@ def new_metric(spec: Spec, cfg: dict):
 def fresh_cfg(cfg: dict) -> dict:
     """configs may hold per-run generator state under '_…' keys; copy before use."""
     return copy.deepcopy(cfg)
+
+
+def split_batch(spec: Spec, b: Batch, sizes: list[int]) -> list[Batch] | None:
+    """split a batch into consecutive sample ranges of the given sizes (None when not splittable)."""
+    if spec.cat is None:
+        return None
+    out = []
+    off = 0
+    for sz in sizes:
+        args = []
+        for i, a in enumerate(b.args):
+            if isinstance(a, torch.Tensor):
+                if i not in spec.cat:
+                    return None
+                args.append(a.narrow(spec.cat[i], off, sz).clone())
+            elif isinstance(a, list):
+                args.append(a[off:off + sz])
+            else:
+                args.append(a)
+        kwargs = {}
+        for k, a in b.kwargs.items():
+            if isinstance(a, torch.Tensor):
+                if k not in spec.cat:
+                    return None
+                kwargs[k] = a.narrow(spec.cat[k], off, sz).clone()
+            else:
+                kwargs[k] = a
+        out.append(Batch(tuple(args), kwargs))
+        off += sz
+    return out
+
+
+def batch_len(spec: Spec, b: Batch) -> int | None:
+    if spec.cat is None:
+        return None
+    for i, a in enumerate(b.args):
+        if isinstance(a, torch.Tensor) and i in spec.cat:
+            return a.shape[spec.cat[i]]
+        if isinstance(a, list):
+            return len(a)
+    return None
+
+
+def permute_batch(spec: Spec, b: Batch, perm: list[int]) -> Batch | None:
+    if spec.cat is None:
+        return None
+    idx = torch.tensor(perm, dtype=torch.int64)
+    args = []
+    for i, a in enumerate(b.args):
+        if isinstance(a, torch.Tensor):
+            if i not in spec.cat:
+                return None
+            args.append(a.index_select(spec.cat[i] % a.ndim, idx))
+        elif isinstance(a, list):
+            args.append([a[j] for j in perm])
+        else:
+            args.append(a)
+    kwargs = {}
+    for k, a in b.kwargs.items():
+        if isinstance(a, torch.Tensor):
+            if k not in spec.cat:
+                return None
+            kwargs[k] = a.index_select(spec.cat[k] % a.ndim, idx)
+        else:
+            kwargs[k] = a
+    return Batch(tuple(args), kwargs)
